@@ -435,60 +435,44 @@ theorem hasKey_eq_false {l : List Row} {k : Key} : hasKey kf l k = false ↔ ∀
 /-- what a key holds after `commit()`: the last buffered row of the key, else the row it had -/
 theorem findKey_commitIdx (C B : List Row) (k : Key) :
     findKey kf k (commitIdx kf C B) = (findLast kf k B).or (findKey kf k C) := by
-  have hb : ∀ k, findKey kf k (createIndex kf (dedupLast kf B)) = findLast kf k B := by
-    intro k; rw [findKey_createIndex, findKey_dedupLast]
-  have hf : ∀ r, kf ((findKey kf (kf r) (createIndex kf (dedupLast kf B))).getD r) = kf r := by
-    intro r
-    cases hq : findKey kf (kf r) (createIndex kf (dedupLast kf B)) with
-    | none => rfl
-    | some q => exact (findKey_some kf hq).2
+  have hb : findKey kf k (createIndex kf (dedupLast kf B)) = findLast kf k B := by
+    rw [findKey_createIndex, findKey_dedupLast]
   simp only [commitIdx, findKey_sortRows, findKey_append]
-  rw [findKey_map kf _ hf]
-  rw [findKey_filter kf (fun k => !hasKey kf C k)]
-  cases hc : findKey kf k C with
-  | some r =>
-    have hk := (findKey_some kf hc).2
-    subst hk
-    simp only [Option.map_some, Option.some_or, hb]
-    cases findLast kf (kf r) B <;> simp
+  rw [findKey_filter kf (fun k => !hasKey kf (createIndex kf (dedupLast kf B)) k), hb]
+  cases hl : findLast kf k B with
+  | some b =>
+    rw [hl] at hb
+    have hmem := findKey_some kf hb
+    have : hasKey kf (createIndex kf (dedupLast kf B)) k = true := by
+      simp only [hasKey, List.any_eq_true, beq_iff_eq]
+      exact ⟨b, hmem.1, hmem.2⟩
+    simp [this]
   | none =>
-    have : hasKey kf C k = false := (hasKey_eq_false kf).mpr ((findKey_eq_none kf).mp hc)
-    simp [this, hb]
+    rw [hl] at hb
+    have : hasKey kf (createIndex kf (dedupLast kf B)) k = false :=
+      (hasKey_eq_false kf).mpr ((findKey_eq_none kf).mp hb)
+    simp [this]
 
 theorem mem_commitIdx {C B : List Row} {r : Row} (h : r ∈ commitIdx kf C B) : r ∈ C ∨ r ∈ B := by
   simp only [commitIdx] at h
   have h := (sortRows_perm kf _).mem_iff.mp h
-  have hbdf : ∀ q, q ∈ createIndex kf (dedupLast kf B) → q ∈ B :=
-    fun q hq => (dedupLast_sublist kf B).subset (mem_createIndex kf hq)
   rcases List.mem_append.mp h with h | h
-  · obtain ⟨q, hq, rfl⟩ := List.mem_map.mp h
-    cases hf : findKey kf (kf q) (createIndex kf (dedupLast kf B)) with
-    | none => left; simpa [hf] using hq
-    | some b => right; simpa [hf] using hbdf b (findKey_some kf hf).1
-  · right; exact hbdf r (List.mem_filter.mp h).1
+  · left; exact (List.mem_filter.mp h).1
+  · right; exact (dedupLast_sublist kf B).subset (mem_createIndex kf h)
 
 theorem ssorted_commitIdx (C B : List Row) (hC : (C.map kf).Nodup) : SSorted kf (commitIdx kf C B) := by
   simp only [commitIdx]
   apply ssorted_sortRows
-  have hf : ∀ r, kf ((findKey kf (kf r) (createIndex kf (dedupLast kf B))).getD r) = kf r := by
-    intro r
-    cases hq : findKey kf (kf r) (createIndex kf (dedupLast kf B)) with
-    | none => rfl
-    | some q => exact (findKey_some kf hq).2
-  rw [List.map_append, List.map_map]
-  have hmap : (kf ∘ fun r => (findKey kf (kf r) (createIndex kf (dedupLast kf B))).getD r) = kf := by
-    funext r; exact hf r
-  rw [hmap, List.nodup_append]
-  refine ⟨hC, ?_, ?_⟩
-  · exact List.Nodup.sublist (List.Sublist.map kf List.filter_sublist)
-      (nodup_keys_createIndex kf _ (nodup_keys_dedupLast kf B))
-  · intro a ha b hb hab
-    subst hab
-    obtain ⟨q, hq, hk⟩ := List.mem_map.mp hb
-    have hq2 := (List.mem_filter.mp hq).2
-    simp only [Bool.not_eq_eq_eq_not, Bool.not_true] at hq2
-    obtain ⟨c, hc, hck⟩ := List.mem_map.mp ha
-    exact (hasKey_eq_false kf).mp hq2 c hc (hck.trans hk.symm)
+  rw [List.map_append, List.nodup_append]
+  refine ⟨List.Nodup.sublist (List.Sublist.map kf List.filter_sublist) hC,
+          nodup_keys_createIndex kf _ (nodup_keys_dedupLast kf B), ?_⟩
+  intro a ha b hb hab
+  subst hab
+  obtain ⟨c, hc, hck⟩ := List.mem_map.mp ha
+  obtain ⟨q, hq, hk⟩ := List.mem_map.mp hb
+  have hc2 := (List.mem_filter.mp hc).2
+  simp only [Bool.not_eq_eq_eq_not, Bool.not_true] at hc2
+  exact (hasKey_eq_false kf).mp hc2 q hq (hk.trans hck.symm)
 
 /-! ## the abstract table's upsert -/
 
